@@ -51,7 +51,11 @@ def run_check(prop, tier):
         rep.notes.append(gen_msg)
 
     # 2. build
-    ok, out = common.lake_build(clean=(tier == 'thorough' and os.environ.get('VERIF_CLEAN_BUILD') == '1'))
+    # only the modules this property's theorems live in (and the driver): a theorem over a regenerated table that stops checking
+    # concerns the properties that list it, not every property
+    mods = spec.get('modules', [])
+    ok, out = common.lake_build(targets=tuple(mods) + ('ppdriver',) if mods else ('PP', 'ppdriver'),
+                                clean=(tier == 'thorough' and os.environ.get('VERIF_CLEAN_BUILD') == '1'))
     build_failed = not ok
     if build_failed:
         rep.notes.append('lake build failed:\n' + out[-3000:])
@@ -62,7 +66,7 @@ def run_check(prop, tier):
         for t in theorems:
             rep.obligations[t] = {'ok': False, 'axioms': [], 'msg': 'build failed'}
     else:
-        rep.obligations = common.audit(theorems, prop)
+        rep.obligations = common.audit(theorems, prop, modules=mods)
     hits = common.grep_forbidden()
     if hits:
         rep.obligations['source-audit'] = {'ok': False, 'axioms': [], 'msg': 'forbidden constructs: ' + '; '.join(hits[:10])}
